@@ -209,6 +209,66 @@ def _coop_prop(obj, name):
     return (yield from g(obj))
 
 
+FN_TWINS: dict = {}     # plain module-level function -> its twin (only for helpers that are new w.r.t. the baseline list)
+
+
+def _coop_fn_call(fn, *a, **k):
+    twin = FN_TWINS.get(fn)
+    if twin is None:
+        return fn(*a, **k)
+    return (yield from twin(*a, **k))
+
+
+_BASELINE = None
+
+
+def _baseline_defined() -> dict | None:
+    """{module: set(qualnames)} of the functions that existed when the checks were built (engine/coop_baseline.json), or None"""
+    global _BASELINE
+    if _BASELINE is None:
+        import json
+        import os
+        path = os.path.join(os.path.dirname(os.path.abspath(__file__)), "coop_baseline.json")
+        try:
+            _BASELINE = {k: set(v) for k, v in json.load(open(path))["defined"].items()}
+        except Exception:
+            _BASELINE = {}
+    return _BASELINE or None
+
+
+def _new_helpers(owner, f) -> tuple[list[str], list]:
+    """helpers that `f` calls and that did not exist in the baseline: (method names on `owner`, module-level functions)"""
+    base = _baseline_defined()
+    if not base:
+        return [], []
+    try:
+        tree = ast.parse(textwrap.dedent(inspect.getsource(f)))
+    except Exception:
+        return [], []
+    meths, fns = [], []
+    mod = getattr(f, "__module__", None)
+    for node in ast.walk(tree):
+        if not isinstance(node, ast.Call):
+            continue
+        fn = node.func
+        if isinstance(fn, ast.Attribute) and isinstance(fn.value, ast.Name) and fn.value.id in ("self", "cls") and inspect.isclass(owner):
+            try:
+                target = _find(owner, fn.attr)
+            except AttributeError:
+                continue
+            if not inspect.isfunction(target) or inspect.isgeneratorfunction(target):
+                continue
+            tm = getattr(target, "__module__", "")
+            if tm in base and target.__qualname__ not in base[tm] and fn.attr not in meths:
+                meths.append(fn.attr)
+        elif isinstance(fn, ast.Name):
+            target = f.__globals__.get(fn.id)
+            if inspect.isfunction(target) and not inspect.isgeneratorfunction(target) and target.__module__ == mod and mod in base \
+                    and target.__qualname__ not in base[mod] and target not in fns:
+                fns.append(target)
+    return meths, fns
+
+
 def _coop_gen_call(fn, *a, **k):
     """call a function whose result may be a generator (a cooperative task body): drive it as part of this actor"""
     r = fn(*a, **k)
@@ -346,6 +406,7 @@ class _ExprRewriter(ast.NodeTransformer):
         self.names, self.gen_names, self.sql = names, gen_names, sql
         self.prop_names = prop_names or set()
         self.gen_calls = gen_calls or set()
+        self.fn_helpers: set[str] = set()
 
     def visit_Attribute(self, n):
         self.generic_visit(n)
@@ -402,6 +463,9 @@ class _ExprRewriter(ast.NodeTransformer):
         else:
             self.generic_visit(n)
         f = n.func
+        if isinstance(f, ast.Name) and f.id in self.fn_helpers:
+            call = ast.Call(func=ast.Name("__coop_fn_call", ast.Load()), args=[ast.Name(f.id, ast.Load())] + n.args, keywords=n.keywords)
+            return ast.YieldFrom(value=call)
         if isinstance(f, ast.Name) and f.id in self.gen_calls:
             call = ast.Call(func=ast.Name("__coop_gen_call", ast.Load()), args=[ast.Name(f.id, ast.Load())] + n.args, keywords=n.keywords)
             return ast.YieldFrom(value=call)
@@ -522,13 +586,43 @@ def yieldify(owner, names: list[str], all_names: set[str] | None = None, gen_nam
     fns = {n: (f.fget if isinstance(f, property) else f) for n, f in fns.items()}
     if gen_names is None:
         gen_names = {n for n, f in fns.items() if inspect.isgeneratorfunction(f)}
+    # helpers that did not exist when the checks were built (code extracted into a new method / function by a later change) are
+    # rewritten too, otherwise the extracted statements would silently become one atomic step of the simulation
+    fn_helpers: dict[str, Any] = {}
+    work = list(fns.values())
+    seen = set()
+    while work:
+        f0 = work.pop()
+        if id(f0) in seen or not inspect.isfunction(f0):
+            continue
+        seen.add(id(f0))
+        meths, hfns = _new_helpers(owner, f0)
+        for m in meths:
+            if m not in fns and not hasattr(owner, m + suffix):
+                try:
+                    fns[m] = _find(owner, m)
+                except AttributeError:
+                    continue
+                all_names.add(m)
+                work.append(fns[m])
+        for hf in hfns:
+            if hf.__name__ not in fn_helpers:
+                fn_helpers[hf.__name__] = hf
+                work.append(hf)
+    for hname, hf in fn_helpers.items():
+        if hf not in FN_TWINS:
+            fns["\0fn:" + hname] = hf
     counts = {}
     for n, f in fns.items():
+        is_fn_helper = n.startswith("\0fn:")
+        if is_fn_helper:
+            n = n[4:]
         src = textwrap.dedent(inspect.getsource(f))
         tree = ast.parse(src)
         fdef = tree.body[0]
         assert isinstance(fdef, ast.FunctionDef), n
         rw = _Rewriter(all_names, set(gen_names), sql, drop_stmt, prop_names, gen_calls)
+        rw.ex.fn_helpers = set(fn_helpers)
         _, start = inspect.getsourcelines(f)
         ast.increment_lineno(tree, start - 1)
         fdef.body = rw.body(fdef.body)
@@ -549,11 +643,15 @@ def yieldify(owner, names: list[str], all_names: set[str] | None = None, gen_nam
         glob.setdefault("__coop_sql", _coop_sql)
         glob.setdefault("__coop_prop", _coop_prop)
         glob.setdefault("__coop_gen_call", _coop_gen_call)
+        glob.setdefault("__coop_fn_call", _coop_fn_call)
         code = compile(tree, f"<coop:{getattr(f, '__qualname__', n)}>", "exec")
         ns: dict = {}
         exec(code, glob, ns)
         twin = ns[n + suffix]
-        setattr(owner, n + suffix, twin)
+        if is_fn_helper:
+            FN_TWINS[f] = twin
+        else:
+            setattr(owner, n + suffix, twin)
         counts[n] = rw.n_points
     return counts
 
